@@ -41,7 +41,11 @@ Definition judge_entry (is_fr : bool) (ops : list op) (before o : out) (x : Z * 
          the closing chunk of the episode of the instance it joined *)
       let closing_only := joins &&
                           match kinds all with [] | [ECanceled] | [ECompleted] => closing_payload_ok a all | _ => false end in
+      (* the instance e joins is alive only if somebody else holds the (shared) context already; otherwise it is a new one
+         and starts at rest - nothing of an earlier instance survives the departure of its last holder *)
+      let joined_live := ctx_shared c && existsb (fun m => match m with mi c' e' got _ => Z.eqb c c' && negb (Z.eqb e e') && got end) (x_mirror before) in
       if negb (match all with [] => true | _ => false end) && negb closing_only then (1, st)   (* nothing from a gone instance *)
+      else if after && negb joined_live && negb (match fresh_state with Idle => true | _ => false end) then (7, st)
       else (0, if after then Live fresh_state else Absent)
   | Live ac =>
       let rebuilt := if ctx_shared c then built_ctx c o else built_has c e o in
